@@ -10,6 +10,7 @@ RULE = ("random walks of 5-40 calls over the full building API on DigitalAnalogD
         "automaton says REFUSE / ALLOW / VALUE; REFUSE must raise, ALLOW (probes only) must return; the automaton "
         "advances on success only; is_parametrized / is_measured / is_in_eom_mode / available channel ids must agree "
         "with it. non-trivial = distinct (model-state digest, op kind, verdict) visited")
+RULE += " Later additions: probes carrying a variable that are refused for an EOM-typestate reason must leave the parametrized mode unchanged."
 ASSUMPTIONS = ["devices without duration ceilings; probe arguments are value-valid by construction (C01 decides values)",
                "explicit phase shifts target all atoms and no drift corrections are used, so that phase references stay uniform",
                "acceptance that depends on values/timing is VALUE (no verdict); the SLM-mask DMM is VALUE for delay/add"]
